@@ -404,6 +404,63 @@ def check_classes(prog):
     return out
 
 
+def fold_builders(prog, module, e, classes=None):
+    """`Cls([a]).add(b)` -> `Cls([a, b])` where `add` is an append-and-
+    return-self helper of combinator class Cls and the constructor is called
+    on a list display right there (a fresh object over a fresh list): the
+    tree built step by step, written as built at once."""
+    import copy
+    classes = classes if classes is not None else check_classes(prog)
+
+    class T(ast.NodeTransformer):
+        def visit_Call(self, n):
+            self.generic_visit(n)
+            if isinstance(n.func, ast.Attribute) and isinstance(
+                    n.func.value, ast.Call) and len(n.args) == 1 and \
+                    not n.keywords:
+                ctor = n.func.value
+                cc = classes.get(prog.resolve(module, ctor.func))
+                if cc is not None and cc.append_methods.get(
+                        n.func.attr) == cc.child_attr and \
+                        not cc.merges and len(ctor.args) == 1 and \
+                        not ctor.keywords and isinstance(
+                            ctor.args[0], ast.List) and len(
+                                cc.init_params) == 1 and cc.init_attrs.get(
+                                    cc.init_params[0]) == cc.child_attr:
+                    return ast.Call(func=ctor.func, args=[ast.List(
+                        elts=list(ctor.args[0].elts) + [n.args[0]],
+                        ctx=ast.Load())], keywords=[])
+            return n
+    return T().visit(copy.deepcopy(e))
+
+
+def fresh_tree_local(prog, f, recv, classes=None):
+    """`recv` (receiver of an in-place helper call in function f) is a
+    combinator constructed in f itself over a list display: a constructor
+    call, or a local name bound exactly once, to such a call."""
+    classes = classes if classes is not None else check_classes(prog)
+
+    def ctor(x):
+        return isinstance(x, ast.Call) and classes.get(
+            prog.resolve(f.module, x.func)) is not None and len(
+                x.args) == 1 and isinstance(x.args[0], ast.List)
+    if ctor(recv):
+        return True
+    if isinstance(recv, ast.Call) and isinstance(recv.func, ast.Attribute):
+        # a chain: Cls([..]).add(x).add(y)
+        return fresh_tree_local(prog, f, recv.func.value, classes)
+    if isinstance(recv, ast.Name):
+        binds = [n for n in ast.walk(f.node) if isinstance(n, ast.Name)
+                 and n.id == recv.id and isinstance(n.ctx, ast.Store)]
+        if len(binds) != 1 or recv.id in f.params:
+            return False
+        for n in ast.walk(f.node):
+            if isinstance(n, ast.Assign) and len(n.targets) == 1 and \
+                    n.targets[0] is binds[0]:
+                return ctor(n.value)
+    return False
+
+
 # --------------------------------------------------------------------------
 # reducer table + effect terms
 # --------------------------------------------------------------------------
@@ -514,9 +571,23 @@ def effect_of(prog, classes, finfo):
     """Effect term of a reducer method: list of (kind, term)."""
     params = finfo.params[1:]
     from .dte import inline_helpers
+    base_inline = inline_helpers(prog, modules={PARSER}, classes=False)
+    own_inline = inline_helpers(prog, modules={PARSER}, classes=True)
+
+    def inline(call, frame):
+        g = base_inline(call, frame)
+        if g is not None:
+            return g
+        # a reducer that hands its result to a sibling method of the parse
+        # state (the check classes' own helpers stay primitives)
+        g = own_inline(call, frame)
+        if g is not None and finfo.cls is not None and g.cls is finfo.cls \
+                and g is not finfo:
+            return g
+        return None
+    inline.gen = getattr(base_inline, 'gen', None)
     en = Enumerator(prog, finfo, handler_paths=False, max_depth=4,
-                    inline=inline_helpers(prog, modules={PARSER},
-                                          classes=False))
+                    inline=inline)
     paths = en.run()
     where = '%s:%d %s' % (finfo.module.path, finfo.node.lineno, finfo.qual)
 
